@@ -403,38 +403,40 @@ theorem binopF_scalar_frame (op : Op) (how : How) (m : Option Dir) (ch : ColHow)
     rw [col_value_num' op _ c' a q a.idx m ha]
 
 /-- a frame with ONE column acts as the Series of that column, whatever its name (`_df_column`: `ts.shape[1] == 1`), here
-against a frame with several columns and without a fill method -/
-theorem one_col_left (op : Op) (how : How) (ch : ColHow) (idx : List Int) (n : String) (col : RCol) (b : RFrame) (hb : b.cols.length > 1) :
-    binopF op how Option.none ch (.df { idx := idx, cols := [(n, col)] }) (.df b) =
-      binopF op how Option.none ch (.ts { idx := idx, vals := col }) (.df b) := by
+against a frame with several columns; any index policy, fill method and column policy -/
+theorem one_col_left (op : Op) (how : How) (m : Option Dir) (ch : ColHow) (idx : List Int) (n : String) (col : RCol) (b : RFrame)
+    (hb : b.cols.length > 1) (h : col.length = idx.length) :
+    binopF op how m ch (.df { idx := idx, cols := [(n, col)] }) (.df b) =
+      binopF op how m ch (.ts { idx := idx, vals := col }) (.df b) := by
   obtain ⟨ix, hix⟩ := joinIndex_two how idx b.idx
   have h1 : indexesOfF [FOperand.df { idx := idx, cols := [(n, col)] }, FOperand.df b] = [idx, b.idx] := rfl
   have h1' : indexesOfF [FOperand.ts { idx := idx, vals := col }, FOperand.df b] = [idx, b.idx] := rfl
   simp only [binopF, h1, h1', hix, alignF, kernelF]
-  have h2 : multiNames [FOperand.df (reindexF { idx := idx, cols := [(n, col)] } ix Option.none), FOperand.df (reindexF b ix Option.none)] = [b.names] := by
+  have h2 : multiNames [FOperand.df (reindexF { idx := idx, cols := [(n, col)] } ix m), FOperand.df (reindexF b ix m)] = [b.names] := by
     simp [multiNames, reindexF_ncols, hb, reindexF_names]
-  have h2' : multiNames [FOperand.ts (reindexR { idx := idx, vals := col } ix Option.none), FOperand.df (reindexF b ix Option.none)] = [b.names] := by
+  have h2' : multiNames [FOperand.ts (reindexR { idx := idx, vals := col } ix m), FOperand.df (reindexF b ix m)] = [b.names] := by
     simp [multiNames, reindexF_ncols, hb, reindexF_names]
   rw [h2, h2', resultCols_one]
   cases hc : b.names with
   | nil => exact absurd hc (names_ne_nil b hb)
-  | cons c cs => simp only [colArg_one]; rfl
+  | cons c cs => simp only [colArg_one _ _ _ _ _ _ _ h]; rfl
 
-theorem one_col_right (op : Op) (how : How) (ch : ColHow) (idx : List Int) (n : String) (col : RCol) (a : RFrame) (ha : a.cols.length > 1) :
-    binopF op how Option.none ch (.df a) (.df { idx := idx, cols := [(n, col)] }) =
-      binopF op how Option.none ch (.df a) (.ts { idx := idx, vals := col }) := by
+theorem one_col_right (op : Op) (how : How) (m : Option Dir) (ch : ColHow) (idx : List Int) (n : String) (col : RCol) (a : RFrame)
+    (ha : a.cols.length > 1) (h : col.length = idx.length) :
+    binopF op how m ch (.df a) (.df { idx := idx, cols := [(n, col)] }) =
+      binopF op how m ch (.df a) (.ts { idx := idx, vals := col }) := by
   obtain ⟨ix, hix⟩ := joinIndex_two how a.idx idx
   have h1 : indexesOfF [FOperand.df a, FOperand.df { idx := idx, cols := [(n, col)] }] = [a.idx, idx] := rfl
   have h1' : indexesOfF [FOperand.df a, FOperand.ts { idx := idx, vals := col }] = [a.idx, idx] := rfl
   simp only [binopF, h1, h1', hix, alignF, kernelF]
-  have h2 : multiNames [FOperand.df (reindexF a ix Option.none), FOperand.df (reindexF { idx := idx, cols := [(n, col)] } ix Option.none)] = [a.names] := by
+  have h2 : multiNames [FOperand.df (reindexF a ix m), FOperand.df (reindexF { idx := idx, cols := [(n, col)] } ix m)] = [a.names] := by
     simp [multiNames, reindexF_ncols, ha, reindexF_names]
-  have h2' : multiNames [FOperand.df (reindexF a ix Option.none), FOperand.ts (reindexR { idx := idx, vals := col } ix Option.none)] = [a.names] := by
+  have h2' : multiNames [FOperand.df (reindexF a ix m), FOperand.ts (reindexR { idx := idx, vals := col } ix m)] = [a.names] := by
     simp [multiNames, reindexF_ncols, ha, reindexF_names]
   rw [h2, h2', resultCols_one]
   cases hc : a.names with
   | nil => exact absurd hc (names_ne_nil a ha)
-  | cons c cs => simp only [colArg_one]; rfl
+  | cons c cs => simp only [colArg_one _ _ _ _ _ _ _ h]; rfl
 
 /-- dividing a frame by the scalar 0 gives a NaN frame of the same shape (never ±inf; F10 for frames) -/
 theorem div_by_zero_scalar_frame (how : How) (m : Option Dir) (ch : ColHow) (a : RFrame) (ha : a.cols.length > 1) :
